@@ -20,7 +20,11 @@ const Rule = "cases = (implementation, op sequence) drawn from VERIF_SEED, every
 	"{a,b,c,d}, {00,01}, {7f,ff}, {80,00}, 'a' with each bit flipped) and over {00,7f,80,ff,a,*}, {a,b,*}; all mutators; " +
 	"every query with present / absent / prefix-of-held / extension-of-held / empty arguments; WithPrefix, " +
 	"LongestPrefixOf and Match for every prefix of held keys and every one-letter variation, patterns with * at every " +
-	"position; every insertion order of small key sets; a state dump after every mutator; non-trivial = the history deletes (Delete/DeleteMin/DeleteMax) a " +
+	"position; the rest of trie.Trie on two registers: Traverse in the eight orders and an unknown order with visitors " +
+	"that stop at every count, AnyMatch/AllMatch/FirstMatch/SelectMatch/PartitionMatch with predicates on keys and " +
+	"values (result tries dumped and used as operands), Equal on copies differing in a value or a key, Height, IsEmpty; " +
+	"Put/Get/Delete of the empty key (binary trie: documented panic; Patricia trie: Model comparison only); " +
+	"every insertion order of small key sets; a state dump after every mutator; non-trivial = the history deletes (Delete/DeleteMin/DeleteMax) a " +
 	"held key that is a proper prefix or a proper extension of another held key; distinct = distinct (header, op list)"
 
 type kv struct {
@@ -169,20 +173,34 @@ func Exec(c hx.Case) hx.Result {
 	res := hx.Result{BadOp: -1}
 	tags := map[string]bool{"comp=" + comp: true}
 	eq := generic.NewEqualFunc[int]()
-	var t trie.Trie[int]
+	// two registers: every op applies to t ("a"); SelectMatch / PartitionMatch store their result in tb ("b"), swap
+	// exchanges them. o / ob are the oracle's views of the two.
+	var newTrie, otherTrie func() trie.Trie[int]
 	switch comp {
 	case "binary":
-		t = trie.NewBinary[int](eq)
+		newTrie = func() trie.Trie[int] { return trie.NewBinary[int](eq) }
+		otherTrie = func() trie.Trie[int] { return trie.NewPatricia[int](eq) }
 	case "patricia":
-		t = trie.NewPatricia[int](eq)
+		newTrie = func() trie.Trie[int] { return trie.NewPatricia[int](eq) }
+		otherTrie = func() trie.Trie[int] { return trie.NewBinary[int](eq) }
 	default:
 		for range c.Ops {
 			res.Outs = append(res.Outs, "bad-case")
 		}
 		return res
 	}
-	o := newOracle()
+	t, tb := newTrie(), newTrie()
+	o, ob := newOracle(), newOracle()
+	// The property quantifies over non-empty keys. The Patricia trie accepts "" (the binary trie panics); while a
+	// register holds "" the oracle is silent (e.g. LongestPrefixOf never reports ""), the Model comparison is not.
+	emptyHeld := false
 	bad := func(i int, sig string, format string, a ...any) {
+		_, e1 := o.val[""]
+		_, e2 := ob.val[""]
+		if emptyHeld || e1 || e2 {
+			tags["oracle-silent-while-empty-key-held"] = true
+			return
+		}
 		if res.BadOp < 0 {
 			res.BadOp = i
 			res.Sig = sig
@@ -195,6 +213,10 @@ func Exec(c hx.Case) hx.Result {
 		f := strings.Fields(op)
 		out := "bad-op"
 		mutator := false
+		_, e1 := o.val[""]
+		_, e2 := ob.val[""]
+		emptyHeld = e1 || e2
+		expectPanic := false // Put/Get/Delete("") on the binary trie: documented panic; the property is about non-empty keys
 		var kind string
 		finished := hx.WithTimeout(5*time.Second, func() {
 			kind = hx.Try(func() {
@@ -206,6 +228,10 @@ func Exec(c hx.Case) hx.Result {
 					mutator = true
 					k := key(f[1])
 					v, _ := strconv.Atoi(f[2])
+					expectPanic = comp == "binary" && k == ""
+					if k == "" {
+						tags["put-empty-key"] = true
+					}
 					if _, held := o.val[k]; held {
 						tags["put-update"] = true
 					}
@@ -223,6 +249,7 @@ func Exec(c hx.Case) hx.Result {
 					out = "ok"
 				case "get":
 					k := key(f[1])
+					expectPanic = comp == "binary" && k == ""
 					v, ok := t.Get(k)
 					out = optInt(v, ok)
 					wv, wok := o.val[k]
@@ -232,6 +259,7 @@ func Exec(c hx.Case) hx.Result {
 				case "delete":
 					mutator = true
 					k := key(f[1])
+					expectPanic = comp == "binary" && k == ""
 					wv, wok := o.val[k]
 					if wok {
 						p, e := o.related(k)
@@ -435,6 +463,112 @@ func Exec(c hx.Case) hx.Result {
 					}
 				case "dump":
 					out = "ok " + trie.VerifDump(t)
+				case "isempty":
+					e := t.IsEmpty()
+					out = "ok " + strconv.FormatBool(e)
+					if e != (len(o.keys) == 0) {
+						bad(i, "", "IsEmpty() = %v, sorted map holds %d keys", e, len(o.keys))
+					}
+				case "height":
+					h := t.Height()
+					out = "ok " + strconv.Itoa(h)
+					want := 0
+					if comp == "binary" {
+						want = binaryHeight(o.keys)
+					} else {
+						want = critbitHeight(o.keys)
+					}
+					if h != want {
+						bad(i, "", "Height() = %d, the trie of the held keys %q has height %d", h, o.keys, want)
+					}
+				case "traverse":
+					ord, named := orderByName[f[1]]
+					stop, _ := strconv.Atoi(f[2])
+					got := []kv{}
+					t.Traverse(ord, func(k string, v int) bool {
+						got = append(got, kv{k, v})
+						return len(got) != stop
+					})
+					out = showList(got)
+					tags["traverse-"+f[1]] = true
+					if stop >= 1 && len(got) == stop {
+						tags["traverse-stopped-by-visitor"] = true
+					}
+					if msg := o.checkTraverse(comp, f[1], named && f[1] != "bad", stop, got); msg != "" {
+						bad(i, "", "Traverse(%s) stopping at visit %d = %v: %s", f[1], stop, got, msg)
+					}
+				case "anymatch", "allmatch":
+					p := parsePred(f[1])
+					nsat := len(o.filter(func(k string) bool { return p(k, o.val[k]) }))
+					var got, want bool
+					if f[0] == "anymatch" {
+						got, want = t.AnyMatch(p), nsat > 0
+					} else {
+						got, want = t.AllMatch(p), nsat == len(o.keys)
+					}
+					out = "ok " + strconv.FormatBool(got)
+					if got != want {
+						bad(i, "", "%s(%s) = %v, %d of the %d held pairs satisfy it", f[0], f[1], got, nsat, len(o.keys))
+					}
+				case "firstmatch":
+					p := parsePred(f[1])
+					k, v, ok := t.FirstMatch(p)
+					out = showKV(k, v, ok)
+					sat := o.filter(func(k string) bool { return p(k, o.val[k]) })
+					if ok != (len(sat) > 0) {
+						bad(i, "", "FirstMatch(%s) ok=%v, %d held pairs satisfy it", f[1], ok, len(sat))
+					} else if wv, held := o.val[k]; ok && (!held || wv != v || !p(k, v)) {
+						bad(i, "", "FirstMatch(%s) = (%q,%d): not a held pair satisfying the predicate", f[1], k, v)
+					}
+				case "selectmatch":
+					p := parsePred(f[1])
+					r := t.SelectMatch(p).(trie.Trie[int])
+					out = "ok " + trie.VerifDump(r)
+					tb, ob = r, o.selectBy(p, true)
+					if msg := ob.same(r); msg != "" {
+						bad(i, "", "SelectMatch(%s): %s", f[1], msg)
+					}
+					if fmt.Sprintf("%T", r) != fmt.Sprintf("%T", t) {
+						bad(i, "", "SelectMatch(%s) returned a %T, the receiver is a %T", f[1], r, t)
+					}
+				case "partitionmatch":
+					p := parsePred(f[1])
+					m0, u0 := t.PartitionMatch(p)
+					m, u := m0.(trie.Trie[int]), u0.(trie.Trie[int])
+					out = "ok " + trie.VerifDump(m) + " | " + trie.VerifDump(u)
+					tb, ob = u, o.selectBy(p, false)
+					if msg := o.selectBy(p, true).same(m); msg != "" {
+						bad(i, "", "PartitionMatch(%s), matched part: %s", f[1], msg)
+					} else if msg := ob.same(u); msg != "" {
+						bad(i, "", "PartitionMatch(%s), unmatched part: %s", f[1], msg)
+					}
+				case "equal":
+					e := t.Equal(tb)
+					out = "ok " + strconv.FormatBool(e)
+					want := len(o.keys) == len(ob.keys)
+					for _, k := range o.keys {
+						if v, held := ob.val[k]; !held || v != o.val[k] {
+							want = false
+						}
+					}
+					tags["equal-"+strconv.FormatBool(e)] = true
+					if e != want {
+						bad(i, "", "Equal = %v for tries holding %v and %v", e, o.filter(func(string) bool { return true }), ob.filter(func(string) bool { return true }))
+					}
+				case "equalother":
+					// a trie of the other implementation holding the same pairs: Equal is about tries of the same kind
+					x := otherTrie()
+					for _, k := range o.keys {
+						if k != "" {
+							x.Put(k, o.val[k])
+						}
+					}
+					out = "ok " + strconv.FormatBool(t.Equal(x))
+				case "swap":
+					mutator = true
+					t, tb = tb, t
+					o, ob = ob, o
+					out = "ok"
 				}
 			})
 		})
@@ -445,7 +579,11 @@ func Exec(c hx.Case) hx.Result {
 		}
 		if kind != "" {
 			res.Outs = append(res.Outs, "panic")
-			bad(i, "", "%s panicked (%s)", op, kind)
+			if expectPanic && kind == "explicit" {
+				tags["binary-empty-key-panics"] = true
+			} else {
+				bad(i, "", "%s panicked (%s)", op, kind)
+			}
 			break
 		}
 		res.Outs = append(res.Outs, out)
@@ -482,6 +620,179 @@ func optInt(v int, ok bool) string {
 	return "ok none"
 }
 
+// ---------------------------------------------------------------- oracle for the rest of trie.Trie
+
+var orderByName = map[string]generic.TraverseOrder{
+	"vlr": generic.VLR, "vrl": generic.VRL, "lvr": generic.LVR, "rvl": generic.RVL, "lrv": generic.LRV, "rlv": generic.RLV,
+	"asc": generic.Ascending, "desc": generic.Descending, "bad": generic.TraverseOrder(99),
+}
+
+var orderNames = []string{"vlr", "vrl", "lvr", "rvl", "lrv", "rlv", "asc", "desc", "bad"}
+
+// parsePred: true | false | vmod:<m>:<r> | klt:<hex> | kpre:<hex> | klen:<n>
+func parsePred(s string) func(string, int) bool {
+	f := strings.Split(s, ":")
+	switch f[0] {
+	case "true":
+		return func(string, int) bool { return true }
+	case "vmod":
+		m, _ := strconv.Atoi(f[1])
+		r, _ := strconv.Atoi(f[2])
+		return func(_ string, v int) bool { return v%m == r }
+	case "klt":
+		h, _ := dec(f[1])
+		return func(k string, _ int) bool { return k < h }
+	case "kpre":
+		h, _ := dec(f[1])
+		return func(k string, _ int) bool { return strings.HasPrefix(k, h) }
+	case "klen":
+		n, _ := strconv.Atoi(f[1])
+		return func(k string, _ int) bool { return len(k) == n }
+	}
+	return func(string, int) bool { return false }
+}
+
+// selectBy: the held pairs on which p is `want`
+func (o *oracle) selectBy(p func(string, int) bool, want bool) *oracle {
+	r := newOracle()
+	for _, k := range o.keys {
+		if p(k, o.val[k]) == want {
+			r.put(k, o.val[k])
+		}
+	}
+	return r
+}
+
+// same: t holds exactly the oracle's pairs (read through Size and All)
+func (o *oracle) same(t trie.Trie[int]) string {
+	got := []kv{}
+	for k, v := range t.All() {
+		got = append(got, kv{k, v})
+	}
+	want := o.filter(func(string) bool { return true })
+	if !sameList(got, want) || t.Size() != len(want) {
+		return fmt.Sprintf("the result holds %v (Size %d), expected %v", got, t.Size(), want)
+	}
+	return ""
+}
+
+// binaryHeight: height of the left-child/right-sibling tree of the sorted, non-empty keys: the distinct first bytes
+// form a chain of right links, the keys below a byte hang off its left link.
+func binaryHeight(keys []string) int {
+	type group struct{ sub []string }
+	var groups []group
+	for i := 0; i < len(keys); {
+		j := i
+		g := group{}
+		for j < len(keys) && keys[j][0] == keys[i][0] {
+			if len(keys[j]) > 1 {
+				g.sub = append(g.sub, keys[j][1:])
+			}
+			j++
+		}
+		groups = append(groups, g)
+		i = j
+	}
+	h := 0
+	for i := len(groups) - 1; i >= 0; i-- {
+		h = 1 + max(binaryHeight(groups[i].sub), h)
+	}
+	return h
+}
+
+// critbitHeight: height of the crit-bit tree of the keys (n keys = n-1 branching nodes; the Patricia trie stores it in
+// its downward links): branch on the first position at which the keys differ, positions being the bits of the
+// zero-padded keys followed by one "has at least i bytes" position per byte.
+func critbitHeight(keys []string) int {
+	if len(keys) <= 1 {
+		return 0
+	}
+	maxLen := 0
+	for _, k := range keys {
+		maxLen = max(maxLen, len(k))
+	}
+	bit := func(k string, pos int) bool {
+		if pos < 8*maxLen {
+			if pos/8 >= len(k) {
+				return false
+			}
+			return k[pos/8]&(0x80>>(pos%8)) != 0
+		}
+		return len(k) >= pos-8*maxLen+1
+	}
+	for pos := 0; pos < 9*maxLen; pos++ {
+		var zero, one []string
+		for _, k := range keys {
+			if bit(k, pos) {
+				one = append(one, k)
+			} else {
+				zero = append(zero, k)
+			}
+		}
+		if len(zero) > 0 && len(one) > 0 {
+			return 1 + max(critbitHeight(zero), critbitHeight(one))
+		}
+	}
+	return 0
+}
+
+// checkTraverse: what Traverse may show a visitor that stops at its stop-th call.
+// Patricia: the held pairs — each once; in ascending / descending key order for asc / desc.
+// Binary: one visit per node: ("", 0) for the sentinel root and (last byte of p, value of p or 0) for every non-empty
+// prefix p of a held key. An order that is not one of the eight constants visits nothing.
+func (o *oracle) checkTraverse(comp, order string, valid bool, stop int, got []kv) string {
+	if !valid {
+		if len(got) != 0 {
+			return "an unknown order must not visit anything"
+		}
+		return ""
+	}
+	var all []kv
+	if comp == "patricia" {
+		all = o.filter(func(string) bool { return true })
+		if order == "desc" {
+			for i, j := 0, len(all)-1; i < j; i, j = i+1, j-1 {
+				all[i], all[j] = all[j], all[i]
+			}
+		}
+	} else {
+		all = append(all, kv{"", 0})
+		seen := map[string]bool{}
+		for _, k := range o.keys {
+			for n := 1; n <= len(k); n++ {
+				if p := k[:n]; !seen[p] {
+					seen[p] = true
+					all = append(all, kv{p[n-1:], o.val[p]})
+				}
+			}
+		}
+	}
+	want := len(all)
+	if stop >= 1 && stop < want {
+		want = stop
+	}
+	if len(got) != want {
+		return fmt.Sprintf("%d visits, expected %d", len(got), want)
+	}
+	if comp == "patricia" && (order == "asc" || order == "desc") {
+		if !sameList(got, all[:want]) {
+			return fmt.Sprintf("expected %v", all[:want])
+		}
+		return ""
+	}
+	left := map[kv]int{}
+	for _, e := range all {
+		left[e]++
+	}
+	for _, e := range got {
+		if left[e] == 0 {
+			return fmt.Sprintf("visit (%q,%d) is not a node of the trie (or shown too often)", e.k, e.v)
+		}
+		left[e]--
+	}
+	return ""
+}
+
 // ---------------------------------------------------------------- generators
 
 // alphabets: small, so that prefix relations are dense, and chosen so that letters differ in exactly one bit at
@@ -508,7 +819,8 @@ type gen struct {
 	r      *hx.Rand
 	al     []byte
 	maxLen int
-	held   *oracle // what the history holds so far (to aim arguments)
+	held   *oracle // what the history holds so far in register a (to aim arguments)
+	heldB  *oracle // ... in register b
 	ops    []string
 	clash  bool // aim at keys equal up to trailing 0x00 bytes
 }
@@ -564,6 +876,99 @@ func (g *gen) pattern() string {
 	return string(b)
 }
 
+// pred draws a predicate over (key, value), aimed at the current contents.
+func (g *gen) pred() string {
+	switch g.r.Intn(9) {
+	case 0:
+		return "true"
+	case 1:
+		return "false"
+	case 2:
+		return "vmod:2:" + strconv.Itoa(g.r.Intn(2))
+	case 3:
+		return "vmod:3:" + strconv.Itoa(g.r.Intn(3))
+	case 4, 5:
+		return "klt:" + enc(g.arg(true))
+	case 6, 7:
+		return "kpre:" + enc(g.arg(true))
+	default:
+		return "klen:" + strconv.Itoa(g.r.Range(0, g.maxLen))
+	}
+}
+
+func (g *gen) b() *oracle {
+	if g.heldB == nil {
+		g.heldB = newOracle()
+	}
+	return g.heldB
+}
+
+func (g *gen) traverse() {
+	o := hx.Pick(g.r, orderNames)
+	if o == "bad" && g.r.Bool() { // the unknown order half as often
+		o = hx.Pick(g.r, orderNames)
+	}
+	stop := -1
+	if g.r.Bool() {
+		stop = g.r.Range(0, 2*len(g.held.keys)+2)
+	}
+	g.emit("traverse %s %d", o, stop)
+}
+
+// pairOp: an operation that involves register b
+func (g *gen) pairOp() {
+	switch x := g.r.Intn(100); {
+	case x < 30:
+		p := g.pred()
+		g.emit("selectmatch %s", p)
+		g.heldB = g.held.selectBy(parsePred(p), true)
+	case x < 50:
+		p := g.pred()
+		g.emit("partitionmatch %s", p)
+		g.heldB = g.held.selectBy(parsePred(p), false)
+	case x < 75:
+		g.emit("swap")
+		g.held, g.heldB = g.b(), g.held
+		g.emit("dump")
+	case x < 95:
+		g.emit("equal")
+	default:
+		g.emit("equalother")
+	}
+}
+
+// pairBattery: Equal on a copy, on a copy differing in one value, in one key (both inclusions), after a partition.
+func (g *gen) pairBattery() {
+	g.emit("selectmatch true")
+	g.heldB = g.held.selectBy(parsePred("true"), true)
+	g.emit("equal")
+	g.emit("equalother")
+	if len(g.held.keys) > 0 {
+		h := hx.Pick(g.r, g.held.keys)
+		if h != "" {
+			v := g.held.val[h]
+			g.emit("put %s %d", enc(h), v+1)
+			g.emit("equal")
+			g.emit("swap")
+			g.emit("equal")
+			g.emit("swap")
+			g.emit("put %s %d", enc(h), v)
+			g.emit("equal")
+			g.emit("delete %s", enc(h))
+			g.held.del(h)
+			g.emit("dump")
+			g.emit("equal")
+			g.emit("swap")
+			g.emit("equal")
+			g.emit("swap")
+		}
+	}
+	p := g.pred()
+	g.emit("partitionmatch %s", p)
+	g.heldB = g.held.selectBy(parsePred(p), false)
+	g.emit("equal")
+}
+
 func (g *gen) emit(format string, a ...any) { g.ops = append(g.ops, fmt.Sprintf(format, a...)) }
 
 func (g *gen) mutate() {
@@ -609,7 +1014,19 @@ func (g *gen) mutate() {
 }
 
 func (g *gen) query() {
-	switch g.r.Intn(15) {
+	switch g.r.Intn(22) {
+	case 15:
+		g.emit("isempty")
+	case 16:
+		g.emit("height")
+	case 17, 18:
+		g.traverse()
+	case 19:
+		g.emit("anymatch %s", g.pred())
+	case 20:
+		g.emit("allmatch %s", g.pred())
+	case 21:
+		g.emit("firstmatch %s", g.pred())
 	case 0:
 		g.emit("size")
 	case 1:
@@ -663,6 +1080,13 @@ func (g *gen) battery() {
 		g.emit("match %s", enc(strings.Repeat("*", len(h))))
 	}
 	g.emit("match %s", enc(g.pattern()))
+	g.emit("isempty")
+	g.emit("height")
+	g.traverse()
+	g.traverse()
+	g.emit("anymatch %s", g.pred())
+	g.emit("allmatch %s", g.pred())
+	g.emit("firstmatch %s", g.pred())
 }
 
 // variations of k: k itself and k with each single position replaced by every other letter of the alphabet
@@ -749,10 +1173,14 @@ func genOps(r *hx.Rand, alpha string, n int, clash bool) []string {
 	}
 	for len(g.ops) < n {
 		switch x := r.Intn(100); {
-		case x < 40:
+		case x < 38:
 			g.mutate()
-		case x < 94:
+		case x < 88:
 			g.query()
+		case x < 93:
+			g.pairOp()
+		case x < 94:
+			g.pairBattery()
 		case x < 97:
 			g.battery()
 		default:
@@ -761,6 +1189,9 @@ func genOps(r *hx.Rand, alpha string, n int, clash bool) []string {
 	}
 	g.battery()
 	g.denseBattery(6)
+	if r.Chance(1, 3) {
+		g.pairBattery()
+	}
 	return g.ops
 }
 
@@ -827,6 +1258,15 @@ func fixedBattery(universe []string, x, y byte) []string {
 	for _, lohi := range [][2]string{{"", Y}, {X, X + Y}, {X + X, Y}, {X + Y, X}, {Y, Y + Y}} {
 		ops = append(ops, "range "+enc(lohi[0])+" "+enc(lohi[1]), "rangesize "+enc(lohi[0])+" "+enc(lohi[1]))
 	}
+	ops = append(ops, "isempty", "height")
+	for _, o := range orderNames {
+		ops = append(ops, "traverse "+o+" -1")
+	}
+	ops = append(ops, "traverse lvr 2", "traverse rlv 1", "traverse asc 2", "traverse desc 2")
+	for _, p := range []string{"vmod:2:0", "klt:" + enc(X+Y), "kpre:" + enc(Y)} {
+		ops = append(ops, "anymatch "+p, "allmatch "+p, "firstmatch "+p)
+	}
+	ops = append(ops, "selectmatch vmod:2:1", "equal", "swap", "equal", "swap", "partitionmatch kpre:"+enc(X), "equal", "selectmatch true", "equal", "equalother")
 	return ops
 }
 
@@ -947,6 +1387,22 @@ func Main(run *hx.Run) {
 		r := run.R.Fork("nul-" + alpha)
 		for k := 0; k < run.Scale(15); k++ {
 			both(run, "alpha="+alpha+" stream=trailing-nul", genOps(r, alpha, r.Range(20, 60), true))
+		}
+	}
+	// the empty key: Put/Get/Delete("") end a case on the binary trie (documented panic); the Patricia trie goes on with
+	// "" among its keys (Model comparison only: the property is about non-empty keys)
+	{
+		r := run.R.Fork("emptykey")
+		for k := 0; k < run.Scale(12); k++ {
+			alpha := hx.Pick(r, []string{"ab", "a0bc", "0001"})
+			ops := genOps(r, alpha, r.Range(8, 40), false)
+			at := r.Intn(len(ops)/2 + 1)
+			ins := []string{hx.Pick(r, []string{fmt.Sprintf("put - %d", r.Intn(100)), "get -", "delete -"})}
+			if r.Bool() {
+				ins = []string{fmt.Sprintf("put - %d", r.Intn(100)), "dump", "get -", "all", "delete -", "dump"}[:r.Range(1, 6)]
+			}
+			full := append(append(append([]string{}, ops[:at]...), ins...), ops[at:]...)
+			both(run, "alpha="+alpha+" stream=emptykey", full)
 		}
 	}
 	if run.Thorough() {
